@@ -19,6 +19,7 @@ import (
 	"time"
 
 	hms "github.com/smarthome-go/homescript/v3/homescript"
+	"github.com/smarthome-go/homescript/v3/homescript/compiler"
 	"github.com/smarthome-go/homescript/v3/homescript/interpreter"
 	"github.com/smarthome-go/homescript/v3/homescript/runtime"
 
@@ -42,12 +43,12 @@ const StepBound = 10000
 func (c10) Info(tier string) fw.Info {
 	return fw.Info{
 		Level: "exploration",
-		Rule: "for each of the listed programs (straight-line, empty and working infinite loops, recursion, try/catch with throws, blocking builtin, 1-4 spawned cores, a core failing) and each backend, the context is cancelled at the k-th poll for every k in 1..Kmax (VM: every k; interpreter: every k up to 60, then strides) by the host's cancel(); the same programs and backends again with the context ended the other ways a host ends it - deadline expired (Err()=DeadlineExceeded; quick: a ladder of k = 1,2,3,5,8,.. kmax, kmax+1 and three seed-chosen k, thorough: every k), cancel(cause) and deadline-with-cause (every third rung); a poll is a call of Done() or Err(); " +
-			"oracle: wait/run returns a termination interrupt or the program's own outcome (known from an uncancelled run when the program is finite); every core stops within B=10000 steps after the cancelling poll (step hook); after return no goroutine has a frame in Core.Run (stack samples until 5 identical ones); race log empty. " +
+		Rule: "for each of the listed programs (straight-line, empty and working infinite loops, recursion, try/catch with throws, blocking builtin, 1-4 spawned cores, a core failing; multi-module programs: work in the global initialisers of imported modules - one level, nested, diamond, an initialiser failing by itself (interpreter only) -, the same / different / several builtins imported by several modules, the loop inside an imported function, cores spawned on imported functions) and each backend, the context is cancelled at the k-th poll for every k in 1..Kmax (VM: every k; interpreter: every k up to 60, then strides) by the host's cancel(); the same programs and backends again with the context ended the other ways a host ends it - deadline expired (Err()=DeadlineExceeded; quick: a ladder of k = 1,2,3,5,8,.. kmax, kmax+1 and three seed-chosen k, thorough: every k), cancel(cause) and deadline-with-cause (every third rung); a poll is a call of Done() or Err(); " +
+			"oracle: wait/run returns a termination interrupt or the program's own outcome (known from an uncancelled run when the program is finite); every core stops within B=10000 steps after the cancelling poll (step hook); after return no goroutine of the run has a frame in Core.Run (stack samples until 5 identical ones); the host calls (NewVM, Wait) return: a run in which no core steps any more and every goroutine inside the VM is blocked on a lock or channel (the wait idling between polls) is cancelled by the monitor if its context is still alive and refutes the property if it stays in that state; race log empty. " +
 			"non-trivial = the context actually ended during the run; distinct = (program, backend, end mode, k)",
 		Assumptions: []string{
 			"host builtins that ignore the context are the host's responsibility (the harness builtin vsleep polls it)",
-			"a wait that neither returns nor steps is decided by goroutine state samples (all homescript goroutines blocked for 50 consecutive samples), otherwise by the per-case watchdog (inconclusive)",
+			"a host call (NewVM, Wait) that neither returns nor steps is decided by goroutine state samples (50 consecutive consistent snapshots in which every goroutine inside the VM runtime is blocked on a lock or channel, the wait idling in its poll sleep, and the step counter does not move), otherwise by the per-case watchdog (inconclusive)",
 		},
 		Exhaustive:   true,
 		CaseTimeoutS: 40,
@@ -63,9 +64,46 @@ type program struct {
 	kmaxVM   int
 	kmaxTree int
 	multi    bool // spawns cores: VM only
+	// mods: the further modules of a multi-module program (module name -> source); src is the
+	// entry module "main"
+	mods map[string]string
+	// treeOnly: a module initialiser of the program fails by itself; runtime.NewVM reports that by
+	// panicking, which has nothing to do with cancellation, so the program only runs on the interpreter
+	treeOnly bool
 }
 
-var programs = []program{
+// sources: all modules of the program, the entry module under the name "main".
+func (p program) sources() drive.Sources {
+	src := drive.Sources{"main": p.src}
+	for name, code := range p.mods {
+		src[name] = code
+	}
+	return src
+}
+
+// render: the program text for samples and violation texts (modules in name order).
+func (p program) render() string {
+	if len(p.mods) == 0 {
+		return p.src
+	}
+	names := make([]string, 0, len(p.mods))
+	for name := range p.mods {
+		names = append(names, name)
+	}
+	sort.Strings(names)
+	var sb strings.Builder
+	sb.WriteString("// module main\n" + p.src)
+	for _, name := range names {
+		sb.WriteString("\n// module " + name + "\n" + p.mods[name])
+	}
+	return sb.String()
+}
+
+// programs: the single-module programs followed by the multi-module ones (modules.go). Payloads
+// refer to programs by index or name: only ever append.
+var programs = append(append([]program{}, singlePrograms...), modulePrograms...)
+
+var singlePrograms = []program{
 	{name: "straight", src: `fn main() { let a = 1; let b = a + 2; println(b); println(b * 2); }`, kmaxVM: 6, kmaxTree: 40},
 	{name: "loop-empty", src: `fn main() { loop { } }`, infinite: true, kmaxVM: 12, kmaxTree: 40},
 	{name: "while-true-empty", src: `fn main() { while true { } }`, infinite: true, kmaxVM: 12, kmaxTree: 40},
@@ -144,6 +182,9 @@ func endCases(tier string, seed uint64) []fw.Case {
 	for pi, p := range programs {
 		for _, be := range []string{"vm", "tree"} {
 			kmax := p.kmaxVM
+			if be == "vm" && p.treeOnly {
+				continue
+			}
 			if be == "tree" {
 				if p.multi {
 					continue
@@ -178,7 +219,7 @@ func endCases(tier string, seed uint64) []fw.Case {
 func (c10) Cases(tier string, seed uint64) []fw.Case {
 	var cases []fw.Case
 	for pi, p := range programs {
-		for k := 1; k <= p.kmaxVM+1; k++ {
+		for k := 1; k <= p.kmaxVM+1 && !p.treeOnly; k++ {
 			cases = append(cases, fw.MkCase(fmt.Sprintf("c10-%s-vm-%d", p.name, k), "cancel", Payload{Prog: pi, Backend: "vm", K: int64(k)}))
 		}
 		if p.multi {
@@ -198,6 +239,15 @@ func (c10) Cases(tier string, seed uint64) []fw.Case {
 	// cancellation during @init (NewVM): poisoned by KF-vm-newvm-panics-on-cancel
 	for pi, p := range programs[:3] {
 		cases = append(cases, fw.MkCase(fmt.Sprintf("c10-%s-vm-init-1", p.name), "cancel-init", Payload{Prog: pi, Backend: "vm", K: 1, ArmEarly: true}, "cancel-during-init"))
+	}
+	// the same for the @init code of multi-module programs (several polls fall into NewVM there)
+	for pi, p := range programs {
+		if len(p.mods) < 2 || p.treeOnly || p.multi || p.infinite {
+			continue
+		}
+		for k := 1; k <= 2; k++ {
+			cases = append(cases, fw.MkCase(fmt.Sprintf("c10-%s-vm-init-%d", p.name, k), "cancel-init", Payload{Prog: pi, Backend: "vm", K: int64(k), ArmEarly: true}, "cancel-during-init"))
+		}
 	}
 	cases = append(cases, endCases(tier, seed)...)
 	return cases
@@ -367,7 +417,9 @@ func (c *countingCtx) describe() string {
 		how = endText(endCancel) + " by the cancel function"
 	}
 	at := fmt.Sprintf("at poll %d", c.k)
-	if c.polls < c.k {
+	if c.k >= 1<<50 {
+		at = "asynchronously (no poll count was set for this run)"
+	} else if c.polls < c.k {
 		at = fmt.Sprintf("asynchronously after %d polls (poll k=%d was never reached)", c.polls, c.k)
 	}
 	return fmt.Sprintf("was ended (%s) %s", how, at)
@@ -391,6 +443,7 @@ type runState struct {
 	after    map[uint]int64
 	maxAfter int64
 	total    atomic.Int64
+	steps    atomic.Int64 // all steps of all cores of the run (progress indicator for the wedge verdict)
 }
 
 var (
@@ -405,6 +458,7 @@ func installHooks() {
 			if st == nil {
 				return
 			}
+			st.steps.Add(1)
 			if !st.cc.closed.Load() {
 				// the k-th poll was not reached within the step budget (the core may have stopped
 				// polling): the host cancels asynchronously, "at any moment of the run"
@@ -463,7 +517,7 @@ func (c10) Run(c fw.Case) fw.Result {
 	fw.Decode(c, &p)
 	p.Prog = resolve(p)
 	pg := programs[p.Prog]
-	src := drive.Sources{"main": pg.src}
+	src := pg.sources()
 	res := fw.Result{Verdict: fw.Held, Cover: []string{"prog:" + pg.name, "backend:" + p.Backend, "end:" + p.end(), p.Backend + "/end:" + p.end()}}
 	ao := drive.Analyze(src, "main", true)
 	if ao.Errors > 0 {
@@ -547,23 +601,30 @@ func runVM(p Payload, pg program, ao drive.AnalyzeOut, src drive.Sources, res fw
 	if !pg.infinite {
 		// uncancelled reference run with the same (once installed) hooks
 		installHooks()
-		cur.Store(&runState{cc: newCountingCtx(1 << 60), after: map[uint]int64{}})
-		bg := context.Background()
-		var noCancel context.CancelFunc = func() {}
+		// the context of this run never ends by itself (k is out of reach); only the monitor ends it, when
+		// the run is wedged
+		rc := newCountingCtx(1 << 60)
+		cur.Store(&runState{cc: rc, after: map[uint]int64{}})
+		var rctx context.Context = rc
+		var rcancel context.CancelFunc = rc.cancelNow
 		ex := drive.VMExec{L: &drive.Log{}, Src: src}
-		func() {
-			defer func() {
-				if r := recover(); r != nil {
-					own = drive.Outcome{Class: "go-panic", Message: fmt.Sprint(r)}
-				}
-			}()
-			vm0 := runtime.NewVM(prog, ex, &bg, &noCancel, ex.VMScope(), limits)
-			vm0.SpawnAsync(runtime.MainFn(), nil, nil, nil)
-			_, i := vm0.Wait()
-			own = drive.VMOutcome(i)
-		}()
+		ref := hostRun(prog, ex, &rctx, &rcancel, limits, cur.Load(), rc, nil)
+		own = ref.out
+		if ref.newVMPanic != "" {
+			own = drive.Outcome{Class: "go-panic", Message: ref.newVMPanic}
+		}
+		if own.Class == "deadlock" {
+			// the host cancelled a run that no poll count would ever have cancelled, and it still did not return
+			res.Nontrivial = true
+			res.Verdict, res.Sig = fw.Violated, "vm:wait-never-returns"
+			res.Why = fmt.Sprintf("%s (program %s, run without a cancellation point; the context %s)", own.Message, pg.name, rc.describe())
+			return res
+		}
 		stableCoreGoroutines()
 	}
+	// goroutines that earlier runs of this worker left inside Core.Run (a wedged run was reported by
+	// its own case) are not charged to this run
+	base, _ := coreRunGoroutines()
 	cc := newCountingCtxMode(p.K, p.end())
 	if p.ArmEarly {
 		cc.arm()
@@ -576,44 +637,8 @@ func runVM(p Payload, pg program, ao drive.AnalyzeOut, src drive.Sources, res fw
 	var cancel context.CancelFunc = cc.cancelNow
 	log := &drive.Log{}
 	exec := drive.VMExec{L: log, Src: src}
-	var out drive.Outcome
-	newVMPanic := ""
-	func() {
-		defer func() {
-			if r := recover(); r != nil {
-				newVMPanic = fmt.Sprint(r)
-			}
-		}()
-		vm := runtime.NewVM(prog, exec, &ctx, &cancel, exec.VMScope(), limits)
-		cc.arm()
-		vm.SpawnAsync(runtime.MainFn(), nil, nil, nil)
-		// the wait runs on its own goroutine so that a wait that never returns can be observed
-		done := make(chan drive.Outcome, 1)
-		go func() {
-			_, i := vm.Wait()
-			done <- drive.VMOutcome(i)
-		}()
-		blockedSamples := 0
-		for i := 0; ; i++ {
-			select {
-			case out = <-done:
-				return
-			default:
-			}
-			time.Sleep(200 * time.Microsecond)
-			if i%50 == 49 {
-				if allBlocked() {
-					blockedSamples++
-					if blockedSamples >= 50 {
-						out = drive.Outcome{Class: "deadlock", Message: "the wait does not return: every homescript goroutine is blocked"}
-						return
-					}
-				} else {
-					blockedSamples = 0
-				}
-			}
-		}
-	}()
+	hr := hostRun(prog, exec, &ctx, &cancel, limits, st, cc, cc.arm)
+	out, newVMPanic := hr.out, hr.newVMPanic
 	res.Nontrivial = cc.closed.Load()
 	mu.Lock()
 	maxAfter := st.maxAfter
@@ -643,34 +668,150 @@ func runVM(p Payload, pg program, ao drive.AnalyzeOut, src drive.Sources, res fw
 	n, dump, stable := stableCoreGoroutines()
 	if !stable {
 		res.Cover = append(res.Cover, "leak-sample-unstable")
-	} else if n != 0 {
-		fail("vm:core-goroutine-left", fmt.Sprintf("%d goroutine(s) still inside Core.Run after the wait returned (program %s, context %s):\n%s", n, pg.name, cc.describe(), util.Clip(dump, 1500)))
+	} else if n > base {
+		fail("vm:core-goroutine-left", fmt.Sprintf("%d goroutine(s) still inside Core.Run after the wait returned (program %s, context %s):\n%s", n-base, pg.name, cc.describe(), util.Clip(dump, 1500)))
 	}
 	if p.K == 3 {
-		res.Sample = map[string]any{"program": pg.name, "src": pg.src, "backend": "vm", "k": p.K, "end": p.end(), "outcome": out.String(), "polls": cc.polls, "max_steps_after_cancel": maxAfter}
+		res.Sample = map[string]any{"program": pg.name, "src": pg.render(), "backend": "vm", "k": p.K, "end": p.end(), "outcome": out.String(), "polls": cc.polls, "max_steps_after_cancel": maxAfter}
 	}
 	return res
 }
 
-// allBlocked: every goroutine that has a homescript frame is blocked on a channel or a lock.
-func allBlocked() bool {
-	buf := make([]byte, 1<<20)
-	m := goruntime.Stack(buf, true)
-	any := false
-	for _, g := range strings.Split(string(buf[:m]), "\n\n") {
-		if !strings.Contains(g, "smarthome-go/homescript/v3/homescript/runtime.") {
+// hostResult is what the host saw of one VM run.
+type hostResult struct {
+	out        drive.Outcome
+	newVMPanic string
+}
+
+// wedgeSamples: consecutive goroutine-state samples in which the VM must be wedged before the monitor
+// acts on it (a sample every 10 rounds of the host's wait loop; every round once one looked wedged).
+const wedgeSamples = 50
+
+// hostRun plays the host of a VM run: NewVM (which runs the @init code of all modules), spawn main,
+// wait. The host calls run on their own goroutine so that a call which never returns can be
+// observed, whichever of them it is. The verdict "never returns" is state based: no core of the run
+// steps any more and no goroutine inside the VM can run again (vmWedged), sample after sample. When
+// that state is reached while the context is still alive (the k-th poll is then never reached:
+// nobody polls any more), the monitor ends the context itself - a host cancels "at any moment of the
+// run" - and only if the state persists after that the run is reported as outliving cancellation.
+// cc == nil: the uncancelled reference run (nothing to end).
+func hostRun(prog compiler.CompileOutput, exec drive.VMExec, ctx *context.Context, cancel *context.CancelFunc, limits runtime.CoreLimits, st *runState, cc *countingCtx, afterNewVM func()) hostResult {
+	done := make(chan hostResult, 1)
+	var phase atomic.Value
+	phase.Store("runtime.NewVM (the @init code of the modules)")
+	go func() {
+		var r hostResult
+		var vm runtime.VM
+		func() {
+			defer func() {
+				if rec := recover(); rec != nil {
+					r.newVMPanic = fmt.Sprint(rec)
+				}
+			}()
+			vm = runtime.NewVM(prog, exec, ctx, cancel, exec.VMScope(), limits)
+			if afterNewVM != nil {
+				afterNewVM()
+			}
+			phase.Store("VM.Wait")
+			vm.SpawnAsync(runtime.MainFn(), nil, nil, nil)
+		}()
+		if r.newVMPanic == "" {
+			_, i := vm.Wait()
+			r.out = drive.VMOutcome(i)
+		}
+		done <- r
+	}()
+	wedged, lastSteps := 0, int64(-1)
+	for i := 0; ; i++ {
+		select {
+		case r := <-done:
+			return r
+		default:
+		}
+		time.Sleep(200 * time.Microsecond)
+		if i%10 != 9 && wedged == 0 {
 			continue
 		}
-		any = true
-		head := g
-		if i := strings.Index(g, "\n"); i > 0 {
-			head = g[:i]
+		steps := st.steps.Load()
+		is, where := vmWedged()
+		if !is || steps != lastSteps {
+			wedged, lastSteps = 0, steps
+			continue
 		}
-		if !(strings.Contains(head, "[chan send") || strings.Contains(head, "[chan receive") || strings.Contains(head, "[semacquire") || strings.Contains(head, "[sync.") || strings.Contains(head, "[select")) {
-			return false
+		wedged++
+		if wedged < wedgeSamples {
+			continue
+		}
+		if cc != nil && !cc.closed.Load() {
+			cc.endNow()
+			wedged = 0
+			continue
+		}
+		return hostResult{out: drive.Outcome{Class: "deadlock", Message: fmt.Sprintf("%s does not return: no core executes a step any more and every goroutine inside the VM is blocked on a lock or channel (the host's wait idling between two polls of the signal channels): %s", phase.Load(), where)}}
+	}
+}
+
+// vmWedged: no goroutine of the VM can run again by itself. Every goroutine with a frame of the VM
+// runtime is either blocked on a lock or channel, or is the host's VM.Wait idling between two polls
+// of the cores' signal channels (it only acts when a core signals); at least one is blocked. The
+// goroutine dump is one consistent snapshot: a lock any of them waits for is then held by nobody who
+// could release it.
+// where names the innermost repository frame of each blocked goroutine.
+func vmWedged() (bool, string) {
+	buf := make([]byte, 1<<20)
+	m := goruntime.Stack(buf, true)
+	const rt = "smarthome-go/homescript/v3/homescript/runtime."
+	var where []string
+	seen := map[string]bool{}
+	for _, g := range strings.Split(string(buf[:m]), "\n\n") {
+		if !strings.Contains(g, rt) {
+			continue
+		}
+		lines := strings.Split(g, "\n")
+		head := lines[0]
+		blocked := strings.Contains(head, "[chan send") || strings.Contains(head, "[chan receive") || strings.Contains(head, "[semacquire") || strings.Contains(head, "[sync.") || strings.Contains(head, "[select")
+		if !blocked {
+			// the host's wait between two polls of the signal channels: inside time.Sleep called by
+			// VM.Wait (asleep, or due and waiting for a processor); it only acts when a core signals
+			if !(len(lines) > 1 && strings.HasPrefix(lines[1], "time.Sleep(") && innermostFrame(lines, rt) == "(*VM).Wait") {
+				return false, ""
+			}
+			continue
+		}
+		state := head
+		if i := strings.Index(head, "["); i >= 0 {
+			state = strings.TrimSuffix(strings.TrimSpace(head[i:]), ":")
+			if j := strings.Index(state, ","); j > 0 { // "[sync.Mutex.Lock, 2 minutes]"
+				state = state[:j] + "]"
+			}
+		}
+		if w := innermostFrame(lines, rt) + " " + state; !seen[w] {
+			seen[w] = true
+			where = append(where, w)
 		}
 	}
-	return any
+	if len(where) == 0 {
+		return false, ""
+	}
+	sort.Strings(where)
+	return true, strings.Join(where, " | ")
+}
+
+// innermostFrame: the innermost function of package rt on a goroutine's stack (lines of its dump).
+func innermostFrame(lines []string, rt string) string {
+	for _, ln := range lines[1:] {
+		if strings.HasPrefix(ln, "\t") || strings.HasPrefix(ln, "created by ") {
+			continue
+		}
+		if i := strings.Index(ln, rt); i >= 0 {
+			f := ln[i+len(rt):]
+			if j := strings.LastIndex(f, "("); j > 0 {
+				f = f[:j]
+			}
+			return f
+		}
+	}
+	return ""
 }
 
 func (c10) OnCrash(c fw.Case, cr fw.Crash) fw.Result {
